@@ -691,7 +691,7 @@ fn build_env() -> Env {
             if let Ok(rc) = c.validate_ta_at(pki::tal(), false, at2019) { issuers.push((rc, at2019)) }
         }
     }
-    let mut keys = vec![(signer.public(0), t0()), (signer.public(1), t0())];
+    let mut keys = vec![(signer.public(0), t0())];
     for (name, t) in [("ca/sigmsg/cms_ta.cer", Time::utc(2012, 1, 1, 0, 0, 0)), ("ca/id_ta.cer", Time::utc(2012, 1, 1, 0, 0, 0)),
                       ("ca/id_afrinic.cer", Time::utc(2022, 10, 25, 15, 0, 0))] {
         if let Some(b) = find(name) { if let Ok(c) = IdCert::decode(b.as_slice()) { keys.push((c.public_key().clone(), t)) } }
@@ -848,7 +848,22 @@ struct CaseOut {
     marks: Vec<&'static str>,
 }
 
-struct Sweep<'e> { env: &'e Env, n: usize, bytes: &'e [u8], fails: Vec<Fail>, marks: Vec<&'static str> }
+/// Optional per-accessor-group timing (C04_PROFILE=1, printed by the worker when it ends).
+struct Prof(Option<(&'static str, Instant)>);
+static PROF: Mutex<BTreeMap<&'static str, (u128, u64)>> = Mutex::new(BTreeMap::new());
+static PROF_ON: std::sync::OnceLock<bool> = std::sync::OnceLock::new();
+impl Prof {
+    fn start(label: &'static str) -> Prof {
+        if *PROF_ON.get_or_init(|| std::env::var("C04_PROFILE").is_ok()) { Prof(Some((label, Instant::now()))) } else { Prof(None) }
+    }
+}
+impl Drop for Prof {
+    fn drop(&mut self) {
+        if let Some((l, t)) = self.0 { let mut p = PROF.lock().unwrap(); let e = p.entry(l).or_insert((0, 0)); e.0 += t.elapsed().as_nanos(); e.1 += 1; }
+    }
+}
+
+struct Sweep<'e> { env: &'e Env, n: usize, bytes: &'e [u8], relaxed: bool, ep: Ep, fails: Vec<Fail>, marks: Vec<&'static str> }
 
 fn count_bounded<I: Iterator>(it: I, n: usize) -> Result<usize, String> {
     let mut c = 0usize;
@@ -877,10 +892,12 @@ impl<'e> Sweep<'e> {
     }
     /// Runs one accessor group under the panic guard.
     fn run<T>(&mut self, oracle: &'static str, acc: &'static str, f: impl FnOnce() -> T) -> Option<T> {
+        let _p = Prof::start(acc);
         match guard(f) { Ok(v) => Some(v), Err(p) => { self.push(oracle, acc, p); None } }
     }
     /// Like `run`, for groups that also check an iterator bound.
     fn check(&mut self, oracle: &'static str, acc: &'static str, f: impl FnOnce() -> Result<(), String>) {
+        let _p = Prof::start(acc);
         match guard(f) { Ok(Ok(())) => {}, Ok(Err(d)) => self.push(oracle, acc, d), Err(p) => self.push(oracle, acc, p) }
     }
 
@@ -1116,8 +1133,10 @@ impl<'e> Sweep<'e> {
                 Ok(())
             });
         }
-        // wall-clock siblings give the verdict of their *_at(now) forms
-        self.check("C04.variant", "Cert::validate_* / verify_* (wall clock)", || {
+        // wall-clock siblings give the verdict of their *_at(now) forms; compared for every input of
+        // the certificate entry point (certificates embedded in signed objects go through the same
+        // functions via Roa::process / Aspa::process / Manifest::validate)
+        if self.ep == Ep::Cert { self.check("C04.variant", "Cert::validate_* / verify_* (wall clock)", || {
             let now = Time::now();
             let d = |what: &str, a: bool, b: bool| if a != b { Err(format!("{what}: wall-clock form says {a}, *_at(now) says {b}")) } else { Ok(()) };
             d("Validity::verify", c.validity().verify().is_ok(), c.validity().verify_at(now).is_ok())?;
@@ -1140,7 +1159,7 @@ impl<'e> Sweep<'e> {
                 }
             }
             Ok(())
-        });
+        }) }
     }
 
     fn id_cert(&mut self, c: &IdCert) {
@@ -1199,7 +1218,9 @@ impl<'e> Sweep<'e> {
             let e = rpki::repository::crl::RevokedCertificates::empty();
             if e.contains(serials[0]) || e.iter().next().is_some() { return Err("the empty list contains something".into()) }
             // every listed entry decodes with the mandatory sibling as well and is found by contains
-            for entry in crl.revoked_certs().iter() {
+            let total = crl.revoked_certs().iter().count();
+            for (i, entry) in crl.revoked_certs().iter().enumerate() {
+                if i >= 6 && i + 2 < total { continue }     // the first six and the last two (contains is linear)
                 let enc = entry.encode().to_captured(Mode::Der);
                 match Mode::Der.decode(enc.as_slice(), |c| CrlEntry::take_from(c)) {
                     Ok(x) if x.user_certificate == entry.user_certificate => {}
@@ -1217,6 +1238,7 @@ impl<'e> Sweep<'e> {
         let ok = self.run("C04.crl.verify_signature", "Crl::verify_signature", || {
             let mut ok = false;
             for (k, _) in env.keys.iter() { ok |= crl.verify_signature(k).is_ok(); }
+            for (rc, _) in env.issuers.iter() { ok |= crl.verify_signature(rc.as_cert().subject_public_key_info()).is_ok(); }
             ok
         });
         if ok == Some(true) { self.mark("Crl::verify_signature ok") }
@@ -1257,7 +1279,9 @@ impl<'e> Sweep<'e> {
         });
         let ok = self.run("C04.mft.validate_at", "Manifest::validate_at", || {
             let mut ok = false;
-            for (issuer, t) in env.issuers.iter() {
+            for (i, (issuer, t)) in env.issuers.iter().enumerate() {
+                // every call verifies the object's signature first: all issuers that are named, plus one that is not
+                if i > 0 && m.cert().verify_issuer_claim(issuer, false).is_err() { continue }
                 for strict in [false, true] {
                     if let Ok((rc, content)) = m.clone().validate_at(issuer, strict, *t) {
                         ok = true;
@@ -1319,7 +1343,8 @@ impl<'e> Sweep<'e> {
         });
         let ok = self.run("C04.roa.process", "Roa::process", || {
             let mut ok = false;
-            for (issuer, _) in env.issuers.iter() {
+            for (i, (issuer, _)) in env.issuers.iter().enumerate() {
+                if i > 0 && r.cert().verify_issuer_claim(issuer, false).is_err() { continue }
                 for strict in [false, true] {
                     if let Ok((rc, att)) = r.clone().process(issuer, strict, |_| Ok(())) {
                         ok = true;
@@ -1354,7 +1379,8 @@ impl<'e> Sweep<'e> {
         if let Some(b) = res { self.as_blocks(&b) }
         let ok = self.run("C04.aspa.process", "Aspa::process", || {
             let mut ok = false;
-            for (issuer, _) in env.issuers.iter() {
+            for (i, (issuer, _)) in env.issuers.iter().enumerate() {
+                if i > 0 && a.cert().verify_issuer_claim(issuer, false).is_err() { continue }
                 for strict in [false, true] {
                     if let Ok((_, att)) = a.clone().process(issuer, strict, |_| Ok(())) { ok = true; let _ = att.provider_as_set().iter().count(); }
                 }
@@ -1434,8 +1460,9 @@ impl<'e> Sweep<'e> {
         });
         // the signed-object layer on its own
         let bytes = self.bytes;
+        let this_mode = !self.relaxed;
         self.check("C04.variant", "MultiSignedObject::decode", || {
-            for strict in [false, true] {
+            for strict in [this_mode] {
                 match rta::MultiSignedObject::decode(bytes, strict) {
                     Ok(m) => {
                         let _ = m.content().len();
@@ -1528,8 +1555,9 @@ impl<'e> Sweep<'e> {
         });
         if ok == Some(true) { self.mark("SignedMessage::validate_at ok") }
         self.check("C04.variant", "SignedMessage::validate (wall clock)", || {
+            // every call verifies the message's own signature first, whatever the key: one key is enough here
             let now = Time::now();
-            for (k, _) in env.keys.iter() {
+            if let Some((k, _)) = env.keys.first() {
                 if m.validate(k).is_ok() != m.validate_at(k, now).is_ok() { return Err("validate differs from validate_at(now)".into()) }
             }
             Ok(())
@@ -1544,7 +1572,7 @@ fn run_case(env: &Env, ep: Ep, bytes: &[u8], do_sweep: bool) -> CaseOut {
     let calls = Cell::new(0u64);
     let budget = STEP_C * n as u64 + STEP_K;
     let src = || CountSource { data: bytes, pos: 0, calls: &calls, budget };
-    let mut sw = Sweep { env, n, bytes, fails: Vec::new(), marks: Vec::new() };
+    let mut sw = Sweep { env, n, bytes, relaxed: ep.mode() == "relaxed", ep, fails: Vec::new(), marks: Vec::new() };
     let mut reject = String::new();
     let mut steps_exceeded = false;
     macro_rules! dec {
@@ -1599,7 +1627,8 @@ fn run_case(env: &Env, ep: Ep, bytes: &[u8], do_sweep: bool) -> CaseOut {
                 let _ = v.clone().into_message();
             });
             sw.run("C04.sigmsg.validate_at", "ProvisioningCms::validate_at", || {
-                for (k, t) in env.keys.iter() { let _ = v.validate_at(k, *t); }
+                // the wrapper only forwards; the unpacked message below is validated against every key
+                if let Some((k, t)) = env.keys.first() { let _ = v.validate_at(k, *t); let _ = v.validate(k); }
             });
             let (sm, _) = v.clone().unpack();
             sw.sigmsg(&sm)
@@ -1611,7 +1640,8 @@ fn run_case(env: &Env, ep: Ep, bytes: &[u8], do_sweep: bool) -> CaseOut {
                 let _ = (m.to_xml_string().len(), m.to_xml_bytes().len());
             });
             sw.run("C04.sigmsg.validate_at", "PublicationCms::validate_at", || {
-                for (k, t) in env.keys.iter() { let _ = v.validate_at(k, *t); }
+                // the wrapper only forwards; the unpacked message below is validated against every key
+                if let Some((k, t)) = env.keys.first() { let _ = v.validate_at(k, *t); let _ = v.validate(k); }
             });
             let (sm, _) = v.clone().unpack();
             sw.sigmsg(&sm)
@@ -1972,7 +2002,21 @@ fn worker_main(thorough: bool) -> ! {
     let mut line = String::new();
     loop {
         line.clear();
-        match stdin.lock().read_line(&mut line) { Ok(0) | Err(_) => std::process::exit(0), Ok(_) => {} }
+        match stdin.lock().read_line(&mut line) {
+            Ok(0) | Err(_) => {
+                if std::env::var("C04_PROFILE").is_ok() {
+                    let p = PROF.lock().unwrap();
+                    let mut v: Vec<_> = p.iter().collect();
+                    v.sort_by_key(|(_, (ns, _))| std::cmp::Reverse(*ns));
+                    let mut out = String::new();
+                    for (l, (ns, n)) in v { out.push_str(&format!("{:.1}\t{}\t{}\n", *ns as f64 / 1e6, n, l)) }
+                    eprint!("{out}");
+                    let _ = std::fs::write(std::env::temp_dir().join(format!("c04-prof-{}.tsv", std::process::id())), out);
+                }
+                std::process::exit(0)
+            }
+            Ok(_) => {}
+        }
         let Some(t) = Task::parse(&line) else {
             println!("{}", json!({"fatal": format!("bad task line {line:?}")}));
             std::process::exit(3);
